@@ -3001,9 +3001,22 @@ def _energy_vel_kinetic(nv: int):
   return energy_vel_kinetic
 
 
+@wp.kernel
+def _energy_vel_zero(
+  # Data out:
+  energy_out: wp.array[wp.vec2],
+):
+  worldid = wp.tid()
+  energy_out[worldid][1] = 0.0
+
+
 def energy_vel(m: Model, d: Data):
   """Velocity-dependent energy (kinetic)."""
   # kinetic energy: 0.5 * qvel.T @ M @ qvel
+  if m.nv == 0:
+    # no degrees of freedom: the reduction below over a zero-length tile is undefined
+    wp.launch(_energy_vel_zero, dim=d.nworld, inputs=[], outputs=[d.energy])
+    return
 
   # M @ qvel
   mv = wp.zeros((d.nworld, m.nv), dtype=float)
